@@ -82,7 +82,7 @@ Ltac fin :=
   | H : _ = WSend _ |- _ => try discriminate H
   end;
   cbn [wpast wlate wexit is_running_once isclosing] in *;
-  try solve [intuition (try congruence; try discriminate; eauto)].
+  try solve [intuition (try congruence; try discriminate; eauto with datatypes)].
 
 (* goal: [nok nt n (upd w st W) O' C' Q' F' B'] from [Hok : nok nt n W O C Q F B] and [Hg : nth_error W w = Some st0] *)
 Ltac wtac Hok Hg :=
@@ -154,7 +154,7 @@ Lemma life_try_send : forall nt s c it s1,
   inv_shape nt s -> inv_life' nt s -> try_send nt s c it = Sent s1 -> inv_life' nt s1.
 Proof.
   intros nt s c it s1 [Hlen _] I H.
-  apply try_send_sent in H. destruct H as (Hc & Hsl & Hne & Hl & Hcbs & Hmn & Hto & _).
+  apply try_send_sent in H. destruct H as (Hc & Hsl & Hne & Hlen1 & Hcbs & Hmn & Hto & _).
   destruct I as [A B C D E F].
   constructor; unfold main_past_loop; rewrite ?Hcbs, ?Hmn, ?Hto.
   - intros m Hm. unfold node_ok. rewrite Hcbs. destruct (Hsl m) as (a & b & c0 & d). rewrite a, b, c0, d.
@@ -322,4 +322,163 @@ Proof.
   apply life_local; auto; autorewrite with fb; auto; rewrite ?Ho.
   - wtac Hok Hg.
   - intros Hm Ht. pose proof (i_gx _ _ I Hm Ht n w _ Hn' Hg). discriminate.
+Qed.
+
+(* ------------------------------------------------------------------ more generic lemmas *)
+(* only main / source / clock / trace change *)
+Lemma life_main : forall nt s s',
+  nodes s' = nodes s -> cbs s' = cbs s ->
+  (main_past_loop s = true -> main_past_loop s' = true) ->
+  mn_ok nt (mn s') ->
+  (mn s' = MDone -> timedout s' = false ->
+     forall n w st, n < length nt -> nth_error (ws (node s n)) w = Some st -> st = WExit) ->
+  inv_life' nt s -> inv_life' nt s'.
+Proof.
+  intros nt s s' Hn Hc Hp Hok Hx I.
+  assert (Hnode : forall m, node s' m = node s m) by (intros; unfold node; rewrite Hn; auto).
+  destruct I as [A B C D E F].
+  constructor; unfold node_ok in *; intros; repeat rewrite Hnode in *; rewrite ?Hc in *; eauto.
+Qed.
+
+Lemma nok_closed_mono : forall nt n W O C C' Q F B,
+  nok nt n W O C Q F B -> (C = true -> C' = true) -> nok nt n W O C' Q F B.
+Proof.
+  intros nt n W O C C' Q F B H Hm. destruct H. constructor; auto.
+  intros w st Hw Hp. destruct (n6 w st Hw Hp). auto.
+Qed.
+
+Lemma running_once_O : forall nt n W O C Q F B w st,
+  nok nt n W O C Q F B -> nth_error W w = Some st -> is_running_once st = true -> O = ORunning.
+Proof.
+  intros nt n W O C Q F B w st H Hw Hr.
+  pose proof (n3 _ _ _ _ _ _ _ _ H) as H3.
+  assert (In st (filter is_running_once W)).
+  { apply filter_In. split; auto. eapply nth_error_In; eauto. }
+  destruct (filter is_running_once W); [contradiction|]. cbn in H3. destruct O; auto; discriminate.
+Qed.
+
+Lemma owns_app_other : forall m n (pend : list (nat * item)) l, m <> n ->
+  existsb (owns m) (l ++ [(n, pend)]) = existsb (owns m) l.
+Proof.
+  intros. rewrite existsb_app. cbn. unfold owns at 2. cbn.
+  replace (n =? m) with false by (symmetry; apply Nat.eqb_neq; congruence).
+  rewrite !orb_false_r. reflexivity.
+Qed.
+
+(* a new callback thread of node n appears: n's Shutdown has not returned and n has workers *)
+Lemma life_add_cb : forall nt s n pend,
+  inv_life' nt s -> n < length nt ->
+  once (node s n) <> ODone -> (forall w, nth_error (ws (node s n)) w <> Some WClosing) -> ws (node s n) <> [] ->
+  cb_ok nt (n, pend) ->
+  inv_life' nt (set_cbs s (cbs s ++ [(n, pend)])).
+Proof.
+  intros nt s n pend I Hn Ho Hc Hw Hok. destruct I as [A B C D E F].
+  constructor; unfold main_past_loop; autorewrite with fb; auto.
+  - intros m Hm. unfold node_ok. autorewrite with fb. specialize (A m Hm). unfold node_ok in A.
+    destruct (Nat.eq_dec m n) as [->|Hmn].
+    + destruct A. constructor; auto.
+      * intros HO. contradiction.
+      * intros w Hw'. destruct (Hc w Hw').
+      * intros HW. contradiction.
+    + rewrite owns_app_other by assumption. exact A.
+  - intros cb Hin. apply in_app_or in Hin. destruct Hin as [Hin|[<-|[]]]; auto.
+Qed.
+
+Lemma node_inflight_lt : forall s n, inflight (node s n) <> [] -> n < length (nodes s).
+Proof.
+  intros. destruct (Nat.lt_ge_cases n (length (nodes s))); auto.
+  rewrite node_oob in H by assumption. cbn in H. congruence.
+Qed.
+
+(* ------------------------------------------------------------------ deliveries *)
+Lemma life_SendW : forall nt T s n w s', inv_shape nt s -> inv_life' nt s ->
+  step nt T s (SendW n w) = Ok s' -> inv_life' nt s'.
+Proof.
+  intros nt T s n w s' Hsh I H. pose proof Hsh as [Hlen Hws]. cbn [step] in H.
+  destruct (nth_error (ws (node s n)) w) as [[| |[|[c it] rest]| | | | |]|] eqn:Hg; try discriminate.
+  destruct (try_send nt s c it) as [s1| |] eqn:Hts; try discriminate.
+  injection H as <-.
+  pose proof (life_try_send _ _ _ _ _ Hsh I Hts) as I1.
+  apply try_send_sent in Hts. destruct Hts as (Hc & Hsl & Hne & Hlen1 & Hcbs & Hmn & Hto & _).
+  pose proof (node_ws_some_lt _ _ _ _ Hg) as Hn.
+  assert (Hn' : n < length nt) by lia.
+  pose proof (i_nodes _ _ I1 n Hn') as Hok. unfold node_ok in Hok.
+  pose proof Hg as Hg1. destruct (Hsl n) as (Hsw & _). rewrite <- Hsw in Hg1.
+  apply life_local; auto; autorewrite with fb; auto; try lia.
+  - destruct rest as [|p l]; cbn [after_deliveries]; wtac Hok Hg1.
+  - intros Hm Ht. rewrite Hmn in Hm. rewrite Hto in Ht. pose proof (i_gx _ _ I Hm Ht n w _ Hn' Hg). discriminate.
+Qed.
+
+Lemma life_SendC : forall nt T s i s', inv_shape nt s -> inv_life' nt s ->
+  step nt T s (SendC i) = Ok s' -> inv_life' nt s'.
+Proof.
+  intros nt T s i s' Hsh I H. cbn [step] in H.
+  destruct (nth_error (cbs s) i) as [[n [|[c it] rest]]|] eqn:Hg; try discriminate.
+  destruct (try_send nt s c it) as [s1| |] eqn:Hts; try discriminate.
+  injection H as <-.
+  pose proof (life_try_send _ _ _ _ _ Hsh I Hts) as I1.
+  apply try_send_sent in Hts. destruct Hts as (Hc & Hsl & Hne & Hlen1 & Hcbs & Hmn & Hto & _).
+  rewrite <- Hcbs in Hg.
+  assert (Hcb : cb_ok nt (n, (c, it) :: rest)).
+  { apply (i_g8 _ _ I1). eapply nth_error_In; eauto. }
+  apply life_set_cbs; auto.
+  - intros m Hex. destruct rest.
+    + apply existsb_remove_at_inv in Hex. exact Hex.
+    + apply existsb_upd_inv in Hex. destruct Hex as [Hex|Hex]; auto.
+      eapply existsb_nth_error; eauto.
+  - intros cb Hin. destruct rest.
+    + apply In_remove_at in Hin. apply (i_g8 _ _ I1); auto.
+    + apply In_upd in Hin. destruct Hin as [->|Hin]; [|apply (i_g8 _ _ I1); auto].
+      destruct Hcb as (a & b & c0). cbn [fst snd] in *. repeat split; auto; [discriminate|].
+      intros d Hd. apply c0. right; auto.
+Qed.
+
+Lemma life_MainSend : forall nt T s s', inv_shape nt s -> inv_life' nt s ->
+  step nt T s MainSend = Ok s' -> inv_life' nt s'.
+Proof.
+  intros nt T s s' Hsh I H. cbn [step] in H.
+  destruct (mn s) as [|it [|r rs]| | |] eqn:Hm; try discriminate.
+  destruct (try_send nt s r it) as [s1| |] eqn:Hts; try discriminate.
+  injection H as <-.
+  pose proof (life_try_send _ _ _ _ _ Hsh I Hts) as I1.
+  apply try_send_sent in Hts. destruct Hts as (Hc & Hsl & Hne & Hlen1 & Hcbs & Hmn & Hto & _).
+  destruct (i_g9 _ _ I _ _ Hm) as [_ Hrs].
+  apply (life_main nt s1); auto.
+  - unfold main_past_loop. rewrite Hmn, Hm. discriminate.
+  - autorewrite with fb. destruct rs; intros it' rs' E; inversion E; subst. split; [discriminate|].
+    intros r' Hr'. apply Hrs. right; auto.
+  - autorewrite with fb. destruct rs; discriminate.
+Qed.
+
+Lemma life_Callback : forall nt T s n it o s', inv_shape nt s -> inv_life' nt s ->
+  step nt T s (Callback n it o) = Ok s' -> inv_life' nt s'.
+Proof.
+  intros nt T s n it o s' [Hlen Hws] I H. cbn [step] in H.
+  destruct (remove_one it (inflight (node s n))) as [rest|] eqn:Hr; try discriminate.
+  destruct (outcome_ok _ _ _); try discriminate.
+  injection H as <-.
+  pose proof (remove_one_some_nonempty _ _ _ Hr) as Hf.
+  pose proof (node_inflight_lt _ _ Hf) as Hn.
+  assert (Hn' : n < length nt) by lia.
+  pose proof (i_nodes _ _ I n Hn') as Hok. unfold node_ok in Hok.
+  assert (Ho : once (node s n) <> ODone).
+  { intro E. destruct (n5a _ _ _ _ _ _ _ _ Hok E). contradiction. }
+  assert (Hcl : forall w, nth_error (ws (node s n)) w <> Some WClosing).
+  { intros w E. destruct (n5b _ _ _ _ _ _ _ _ Hok w E). contradiction. }
+  assert (Hw : ws (node s n) <> []).
+  { intro E. destruct (nx2 _ _ _ _ _ _ _ _ Hok E). contradiction. }
+  match goal with |- context [set_node s n ?x] => set (x' := x) end.
+  assert (I1 : inv_life' nt (set_node s n x')).
+  { apply life_local; auto; subst x'; autorewrite with fb; auto.
+    - cbn [ws once closed q inflight]. destruct Hok. constructor; auto.
+      + intros E; contradiction.
+      + intros w E. destruct (Hcl _ E).
+      + intros E; contradiction.
+    - cbn [ws]. intros Hm Ht w st Hnth. apply (i_gx _ _ I Hm Ht n w st Hn' Hnth). }
+  apply inv_life'_log.
+  pose proof (deliveries_targets nt n it o) as Hdel.
+  destruct (deliveries nt n it o) as [|d l]; auto.
+  change (cbs s) with (cbs (set_node s n x')).
+  apply life_add_cb; auto; rewrite ?node_set_node_eq by assumption; subst x'; autorewrite with fb; auto.
+  repeat split; cbn [fst snd]; auto. discriminate.
 Qed.
